@@ -32,16 +32,17 @@ theorem comparedExactly_groups {q : Select} (hg : groups q = true) : comparedExa
 theorem projectColumns_projects {sl : List DerivedCol} {fields : List Field} {rows p : List Row}
     {hdr : List Field} (hs : isStar sl = false) (h : projectColumns sl fields rows = .ok (p, hdr)) :
     ColumnsResolve sl fields ∧ p = rows.map (projRow sl fields) ∧ Projects sl fields rows := by
-  obtain ⟨hres, hp, _⟩ := (projectColumns_nostar_iff hs).1 h
+  obtain ⟨_, hres, hp, _⟩ := (projectColumns_nostar_iff hs).1 h
   obtain ⟨h1, h2⟩ := projects_of_mapM (projectRows_iff_spec.1 hp)
   exact ⟨hres, h1, h2⟩
 
 theorem projectColumns_of_projects {sl : List DerivedCol} {fields : List Field} {rows : List Row}
-    (hs : isStar sl = false) (hres : ColumnsResolve sl fields) (hproj : Projects sl fields rows) :
+    (hne : sl ≠ []) (hs : isStar sl = false) (hres : ColumnsResolve sl fields)
+    (hproj : Projects sl fields rows) :
     ∃ hdr, projectColumns sl fields rows = .ok (rows.map (projRow sl fields), hdr) := by
   obtain ⟨hdr, hh⟩ := headers_ok hres
   exact ⟨hdr, (projectColumns_nostar_iff hs).2
-    ⟨hres, projectRows_iff_spec.2 (mapM_of_projects hproj), hh⟩⟩
+    ⟨hne, hres, projectRows_iff_spec.2 (mapM_of_projects hproj), hh⟩⟩
 
 /-! ### the hypothesis on `AVG`, as a decidable test -/
 
